@@ -432,3 +432,261 @@ def variants(world, tier="quick", only=None):
     if only:
         out = [v for v in out if any(o in v.name for o in only)]
     return out
+
+
+# ---------------------------------------------------------------------------
+# PolarityCNFizer._get_children: which sub-formula is needed in which polarity (the interface the callbacks read by position)
+# ---------------------------------------------------------------------------
+class PolarityChildrenVariant(Variant):
+    """_get_children(f, pol): the occurrences of the children with their polarities, in the order the callbacks of the class
+    index them (proved above under exactly this order): not: (a, -pol); implies: (a, -pol), (b, pol); iff: both sides in
+    both polarities (a+, b+, a-, b-); and / or / quantifier: every argument in pol; Boolean ite: the condition in both
+    polarities, then the branches in pol; an atom has no children."""
+    prop_ids = ("C11",)
+    bounded = "arity"
+
+    def __init__(self, world, Kop, k, pol):
+        self.world, self.Kop, self.k, self.pol = world, Kop, k, pol
+        self.qualname = "pysmt.rewritings.PolarityCNFizer._get_children"
+        self.name = "polarity:children[%s/%d/pol=%s]" % (S.OPNAMES[Kop], k, pol)
+
+    def setup(self, ex):
+        W = self.world
+        env = core.make_env(ex, W)
+        f = z3.Const("formula", Node)
+        W.touch(ex, f)
+        ex.assume(S.op(f) == self.Kop)
+        W.learn(ex, f, op=self.Kop, k=self.k)
+        ex.assume(S.type_of(f) == S.BoolT)
+        self.f = f
+        self.w = Obj("pysmt.rewritings.PolarityCNFizer", {"env": env, "mgr": env.fields["_formula_manager"], "memoization": DictVal(),
+                                                        "stack": [], "_introduced_variables": DictVal()}, tag="cnfizer")
+        fi = W.repo.func(self.qualname)
+        return W.wrap_func(fi, fi.module, bound=self.w), [f], {"pol": self.pol}
+
+    def check(self, ex, outcome):
+        kind, r = outcome
+        if kind == "raise":
+            return [("no-exception", z3.BoolVal(False))]
+        W = self.world
+        a = [S.arg(self.f, S.K(i)) for i in range(self.k)]
+        p, n = self.pol, (not self.pol)
+        K = self.Kop
+        if K == S.NOT:
+            want = [(a[0], n)]
+        elif K == S.IMPLIES:
+            want = [(a[0], n), (a[1], p)]
+        elif K == S.IFF:
+            want = [(a[0], p), (a[1], p), (a[0], n), (a[1], n)]
+        elif K in (S.AND, S.OR, S.FORALL, S.EXISTS):
+            want = [(x, p) for x in a]
+        elif K == S.ITE:
+            want = [(a[0], p), (a[0], n), (a[1], p), (a[2], p)]
+        else:
+            want = []
+        got = BI.iterate(W, ex, r) if r is not None else None
+        if got is None or len(got) != len(want):
+            return [("one-entry-per-needed-occurrence", z3.BoolVal(False))]
+        goals = [("one-entry-per-needed-occurrence", z3.BoolVal(True))]
+        for i, (g, w) in enumerate(zip(got, want)):
+            g = BI.iterate(W, ex, g)
+            ok = len(g) == 2
+            goals.append(("occurrence-%d-is-the-expected-child" % i, (g[0] == w[0]) if ok and is_node(g[0]) else z3.BoolVal(False)))
+            pc = g[1] if ok else None
+            pc = pc if is_z3(pc) else z3.BoolVal(bool(pc)) if isinstance(pc, bool) else z3.BoolVal(False)
+            goals.append(("occurrence-%d-in-the-expected-polarity" % i, pc == z3.BoolVal(w[1])))
+        return goals
+
+
+_base_variants11b = variants
+
+
+def variants(world, tier="quick", only=None):
+    out = _base_variants11b(world, tier, None)
+    for pol in (True, False):
+        for Kop, k in ((S.NOT, 1), (S.IMPLIES, 2), (S.IFF, 2), (S.AND, 2), (S.AND, 3), (S.OR, 2), (S.FORALL, 1), (S.ITE, 3),
+                       (S.SYMBOL, 0), (S.LE, 2), (S.EQUALS, 2), (S.BOOL_CONSTANT, 0), (S.FUNCTION, 1), (S.BV_ULT, 2), (S.STR_CONTAINS, 2)):
+            out.append(PolarityChildrenVariant(world, Kop, k, pol))
+    if only:
+        out = [v for v in out if any(o in v.name for o in only)]
+    return out
+
+
+# ---------------------------------------------------------------------------
+# CNFizer.convert: the top-level clean-up of the clause set
+# ---------------------------------------------------------------------------
+class ConvertCleanupVariant(Variant):
+    """convert(f) after the walk returned the top-level key tl and `shape` clauses of 1-2 literals each: with tl asserted, the
+    clause set returned is equivalent to the clauses of the walk (clauses satisfied by tl or TRUE dropped, the negation of tl
+    and FALSE removed from the others), FALSE_CNF exactly when that leaves an empty clause, and no clause returned mentions
+    tl.  An empty clause set from the walk gives the unit clause tl."""
+    prop_ids = ("C11",)
+    bounded = "arity"
+    qualname = "pysmt.rewritings.CNFizer.convert"
+
+    def __init__(self, world, shape):
+        self.world, self.shape = world, tuple(shape)
+        self.name = "cnf:convert[clauses %s]" % (",".join(str(n) for n in shape) or "none")
+        self.max_arity = 3
+
+    def setup(self, ex):
+        W = self.world
+        env = core.make_env(ex, W)
+        c = SimplifySummary()
+        c.world = W
+        W.contracts[c.qualname] = c
+        self.tl = z3.Const("top_level_key", Node)
+        W.touch(ex, self.tl)
+        ex.assume(S.type_of(self.tl) == S.BoolT)
+        self.clauses = []
+        for i, n in enumerate(self.shape):
+            lits = [z3.Const("lit%d_%d" % (i, j), Node) for j in range(n)]
+            for l in lits:
+                W.touch(ex, l)
+                ex.assume(S.type_of(l) == S.BoolT)
+            if n > 1:
+                ex.assume(z3.Distinct(lits))
+            self.clauses.append(lits)
+        cnf = SetVal([SetVal(list(ls), frozen=True) for ls in self.clauses], frozen=True)
+        self.w = Obj("pysmt.rewritings.CNFizer", {"env": env, "mgr": env.fields["_formula_manager"], "memoization": DictVal(), "stack": [],
+                                                "_introduced_variables": DictVal()}, tag="cnfizer")
+        self.w.fields["walk"] = Builtin("walk", lambda exx, a, kw: (self.tl, cnf))
+        fi = W.repo.func(self.qualname)
+        return W.wrap_func(fi, fi.module, bound=self.w), [z3.Const("formula", Node)], {}
+
+    def check(self, ex, outcome):
+        kind, r = outcome
+        if kind == "raise":
+            return [("no-exception", z3.BoolVal(False))]
+        W = self.world
+        t = lit_val(self.tl)
+        walk = z3.And([z3.Or([lit_val(l) for l in ls]) for ls in self.clauses]) if self.clauses else z3.BoolVal(True)
+        cls_ = BI.iterate(W, ex, r)
+        out = []
+        mentions = []
+        for c in cls_:
+            ls = BI.iterate(W, ex, c)
+            out.append(z3.Or([lit_val(l) for l in ls]) if ls else z3.BoolVal(False))
+            for l in ls:
+                mentions.append(l == self.tl)
+        res = z3.And(out) if out else z3.BoolVal(True)
+        goals = [("with-the-key-asserted-equivalent-to-the-clauses-of-the-walk", z3.Implies(t, res == walk))]
+        if self.clauses:
+            goals.append(("no-clause-mentions-the-key", z3.Not(z3.Or(mentions)) if mentions else z3.BoolVal(True)))
+        else:
+            goals.append(("empty-walk-gives-the-unit-clause-of-the-key", z3.BoolVal(len(cls_) == 1)))
+        return goals
+
+
+from pyvc.symex import Builtin
+_base_variants11c = variants
+
+
+def variants(world, tier="quick", only=None):
+    out = _base_variants11c(world, tier, None)
+    for shape in ((), (1,), (2,), (1, 1), (2, 1)) + (((2, 2),) if tier == "thorough" else ()):
+        out.append(ConvertCleanupVariant(world, shape))
+    if only:
+        out = [v for v in out if any(o in v.name for o in only)]
+    return out
+
+
+# ---------------------------------------------------------------------------
+# Ackermannizer: every pair of applications of every function gets its consistency implication
+# ---------------------------------------------------------------------------
+ACK = "pysmt.rewritings.Ackermannizer"
+
+
+class AckPairsVariant(Variant):
+    """_generate_implications(f) with n recorded argument lists: exactly one implication per unordered pair of different lists
+    (through _generate_implication, proved above).  _get_equality_implications with m functions: the union over ALL functions."""
+    prop_ids = ("C11",)
+    bounded = "arity"
+
+    def __init__(self, world, method, n):
+        self.world, self.method, self.n = world, method, n
+        self.qualname = ACK + "." + method
+        self.name = "ackermann:%s[%d]" % (method, n)
+
+    def setup(self, ex):
+        W = self.world
+        env = core.make_env(ex, W)
+        self.calls = []
+        v = self
+        self.w = Obj(ACK, {"env": env, "mgr": env.fields["_formula_manager"], "_terms_dict": DictVal()}, tag="ackermannizer")
+        if self.method == "_generate_implications":
+            f = z3.Const("function_symbol", Node)
+            self.lists = [(z3.Const("list%d_arg" % i, Node),) for i in range(self.n)]
+            for (x,) in self.lists:
+                W.touch(ex, x)
+            if self.n > 1:
+                ex.assume(z3.Distinct([x for (x,) in self.lists]))
+            self.w.fields["_funs_to_args"] = DictVal([[f, SetVal(list(self.lists))]])
+
+            def one(exx, a, kw):
+                r = exx.fresh("implication", Node)
+                W.touch(exx, r)
+                for _, _, r0 in v.calls:
+                    exx.assume(r != r0)            # implications of different pairs are different formulas
+                v.calls.append((a[1], a[2], r))
+                return r
+            self.w.fields["_generate_implication"] = Builtin("_generate_implication", one, bound=self.w)
+            fi = W.repo.func(self.qualname)
+            return W.wrap_func(fi, fi.module, bound=self.w), [f], {}
+        # _get_equality_implications
+        self.funs = [z3.Const("function%d" % i, Node) for i in range(self.n)]
+        if self.n > 1:
+            ex.assume(z3.Distinct(self.funs))
+        self.w.fields["_funs_to_args"] = DictVal([[f, SetVal()] for f in self.funs])
+        self.per_fun = {}
+
+        def many(exx, a, kw):
+            f = a[1]
+            r = exx.fresh("implication_of", Node)
+            W.touch(exx, r)
+            for _, r0 in v.calls:
+                exx.assume(r != r0)
+            v.calls.append((f, r))
+            return SetVal([r])
+        self.w.fields["_generate_implications"] = Builtin("_generate_implications", many, bound=self.w)
+        fi = W.repo.func(self.qualname)
+        return W.wrap_func(fi, fi.module, bound=self.w), [], {}
+
+    def check(self, ex, outcome):
+        kind, r = outcome
+        if kind == "raise":
+            return [("no-exception", z3.BoolVal(False))]
+        W = self.world
+        items = BI.iterate(W, ex, r)
+        if self.method == "_generate_implications":
+            want_pairs = self.n * (self.n - 1) // 2
+            goals = [("one-implication-per-pair", z3.BoolVal(len(self.calls) == want_pairs and len(items) == want_pairs))]
+            for i in range(self.n):
+                for j in range(i + 1, self.n):
+                    a, b = self.lists[i][0], self.lists[j][0]
+                    hit = []
+                    for o1, o2, _ in self.calls:
+                        x1, x2 = BI.iterate(W, ex, o1), BI.iterate(W, ex, o2)
+                        if len(x1) == 1 and len(x2) == 1:
+                            hit.append(z3.Or(z3.And(x1[0] == a, x2[0] == b), z3.And(x1[0] == b, x2[0] == a)))
+                    goals.append(("pair-%d-%d-covered" % (i, j), z3.Or(hit) if hit else z3.BoolVal(False)))
+            return goals
+        goals = [("every-function-asked-once", z3.BoolVal(len(self.calls) == self.n))]
+        for i, f in enumerate(self.funs):
+            mine = [res for g, res in self.calls if g.eq(f)]
+            ok = len(mine) == 1
+            goals.append(("implications-of-function-%d-in-the-result" % i, z3.Or([x == mine[0] for x in items]) if ok and items else z3.BoolVal(False)))
+        return goals
+
+
+_base_variants11d = variants
+
+
+def variants(world, tier="quick", only=None):
+    out = _base_variants11d(world, tier, None)
+    for n in (1, 2, 3):
+        out.append(AckPairsVariant(world, "_generate_implications", n))
+        out.append(AckPairsVariant(world, "_get_equality_implications", n))
+    if only:
+        out = [v for v in out if any(o in v.name for o in only)]
+    return out
